@@ -42,10 +42,14 @@ class Source:
                     raw = f.read()
             self._raw[rel] = raw
             if self.canonical and rel.endswith('.py'):
-                from .canon import canonicalise
+                from .canon import canonicalise, propagate_copies
                 try:
                     raw = canonicalise(rel, raw)
                 except Exception:      # canonicalisation is best effort: never let it break a check
+                    pass
+                try:
+                    raw = propagate_copies(rel, raw)
+                except Exception:
                     pass
             self._text[rel] = raw
         self.consulted.add(rel)
